@@ -291,4 +291,14 @@ OrderOK ==
 (* without successors; if every such state has all callers granted and completed, then under  *)
 (* fairness every caller is eventually served (use with no cancellation and no time-outs).     *)
 TerminalAllServed == (~ENABLED Quiet) => \A p \in P : pc[p] = "done" /\ res[p] = "granted"
+
+(* -------------------------------------------------------------------- liveness under fairness *)
+(* (see Blocking.tla) the library's own steps are weakly fair per caller, the environment is not *)
+Internal(p) == PassAcqEnter(p) \/ PassAcqExit(p) \/ PassPushed(p) \/ PassRelExit(p) \/ PassUAcqEnter(p) \/ PassUAcqExit(p) \/ PassURelExit(p)
+LiveSpec == Init /\ [][Quiet]_vars /\ \A p \in P : WF_vars(Internal(p))
+WakeUp == \A p \in P : (Blocked(p) /\ held < Limit) ~> (~Blocked(p) \/ held >= Limit)
+CancelWakes == \A p \in P : (EvictCtx /\ cancelled[p] /\ Blocked(p)) ~> ~Blocked(p)
+TimeoutWakes == \A p \in P : (Blocked(p) /\ timer[p] # NoTimer /\ timer[p] <= now) ~> ~Blocked(p)
+ServeSpec == LiveSpec /\ \A p \in P : WF_vars(Start(p)) /\ WF_vars(\E o \in Outcomes : Release(p, o))
+AllServed == <>[](\A p \in P : pc[p] = "done" /\ res[p] = "granted")
 =================================================================================
